@@ -38,6 +38,7 @@ type World struct {
 	written   map[string]bool // struct fields assigned somewhere after allocation (modref.go); nil = not yet computed
 	funcWrites  map[string]*funcWrites
 	escapedKeys map[string]types.Type
+	directWritten map[string]bool // fields some repository statement assigns by name (no reflection, no escape)
 	writtenMu sync.Mutex
 	EmittedPaths map[string]bool // package paths of extracted emitted code
 	extTypes map[string]types.Type
@@ -212,6 +213,17 @@ func (w *World) LookupFunc(short string) *FuncInfo {
 
 func (w *World) IsRepoFunc(f *types.Func) bool {
 	return f.Pkg() != nil && w.RepoPaths[f.Pkg().Path()]
+}
+
+func (w *World) sortedRepoPkgs() []string {
+	var out []string
+	for p := range w.ByPath {
+		if w.RepoPaths[p] {
+			out = append(out, p)
+		}
+	}
+	sort.Strings(out)
+	return out
 }
 
 func (w *World) sortedFuncNames() []string {
